@@ -701,9 +701,9 @@ func c02PartB(k *fw.K, i int, cs c02BCase) {
 
 func runC02(c *fw.Ctx) {
 	c.Cases(15, func(i int) string { return fmt.Sprintf("partA|block=%d", i) }, func(i int, k *fw.K) { c02PartA(k, i) })
-	nw := c.Pick(200, 20000)
+	nw := c.Pick(200, 60000)
 	c.Cases(nw, func(i int) string { return fmt.Sprintf("walk|i=%d", i) }, func(i int, k *fw.K) { c02Walk(k, i) })
-	n := c.Pick(240, 10000)
+	n := c.Pick(240, 30000)
 	c.Cases(n, func(i int) string { return fmt.Sprintf("partB|%s i=%d", c02Scenarios[i%len(c02Scenarios)], i) }, func(i int, k *fw.K) { c02PartB(k, i, c02RotationCase(i)) })
 	plan := c02CfgPlan(c, c.Pick(4, 60))
 	c.Cases(len(plan), func(i int) string { return fmt.Sprintf("partBcfg|%v i=%d", plan[i], i) }, func(i int, k *fw.K) { c02PartB(k, i, plan[i]) })
